@@ -84,8 +84,12 @@ def renameMe (uid : Uid) (f : String) : String :=
   else if uid ≠ "" ∧ ws.getD idx "" = "fnd:" ++ uid then " ".intercalate (ws.set idx "fnd")
   else f
 
-def renameFor (uid : Uid) (f : String) : String :=
-  " ".intercalate (((renameMe uid f).splitOn " ").map (fun w =>
+/-- a `me` / `fnd` topic is "me" / "fnd" to every session attached to it - a root session acting for its user included - and in the
+replies to a request made on that user's behalf -/
+def renameMes (uids : List Uid) (f : String) : String := uids.foldl (fun f u => renameMe u f) f
+
+def renameFor (uid : Uid) (f : String) (others : List Uid := []) : String :=
+  " ".intercalate (((renameMes (uid :: others) f).splitOn " ").map (fun w =>
     if w.startsWith "P:" then
       match w.splitOn ":" with
       | ["P", x, y] => if uid = x then y else if uid = y then x else w
@@ -98,6 +102,7 @@ structure Addr where
   viaChn : Bool := false
   op : String := ""
   what : String := ""
+  asUid : Uid := ""       -- the user a root session acts for in this request
 
 /-- the `chn` spelling: a frame which goes to a session attached to the topic as a channel reader (before or after the request),
 or which answers a request made under the `chn` spelling, names the topic `chn:T`; a {data} frame for a channel reader carries
@@ -144,7 +149,12 @@ def sortMeRuns : List String → List String → List String
 def render (pre : World) (st : WSt) (c : Ctx) (ad : Addr := {}) : String :=
   let frames := st.w.sess.flatMap (fun s =>
     (sortMeRuns ((c.frames.filter (·.1 = s.sid)).map (fun (sid, f) =>
-      if f.startsWith "ctrl 401 " then f else chanFor pre c.w ad sid (renameFor s.uid f))) []).map
+      if f.startsWith "ctrl 401 " then f else
+      -- the users whose `me` / `fnd` this session is attached to (before or after the request), and the one it acts for now
+      let keys := (s.subs ++ (match pre.sess? s.sid with | some s0 => s0.subs | none => [])).filterMap (fun k =>
+        if k.startsWith "fnd:" then some (k.drop 4).toString else if k.startsWith "U" then some k else none)
+      let others := (if sid = ad.actor ∧ ad.asUid ≠ "" then [ad.asUid] else []) ++ keys
+      chanFor pre c.w ad sid (renameFor s.uid f others))) []).map
       (fun f => s!"{s.sid}<-{f}"))
   -- sessions created before this op only; all frames belong to known sessions
   -- (the order in which the topics learn of a timer or a dropped connection is not defined: those frames are compared sorted, as rendered)
@@ -407,7 +417,8 @@ def step (st : WSt) (ws : List String) : Option (WSt × String) :=
         -- the order in which the topics learn about a dropped connection is not defined: frames are compared sorted
         let c := if op = "drop" ∨ op = "fg" ∨ op = "deluser" then { c with frames := c.frames.mergeSort (fun a b => s!"{a.1}<-{a.2}" ≤ s!"{b.1}<-{b.2}") } else c
         let stOut := { st with w := c.w }
-        let line := render st.w stOut c { actor := sid, viaChn := viaChn, op := op, what := (rest.getD 1 "") }
+        let asUid : Uid := match parseAs m with | some (u, _) => u | none => ""
+        let line := render st.w stOut c { actor := sid, viaChn := viaChn, op := op, what := (rest.getD 1 ""), asUid := asUid }
         -- the crash snapshot, if one was taken during this op, is what an immediately following `restart` restores
         some (if ev then { st with w := c.w, snap := none } else { w := c.w, failK := 0, crashK := 0, snap := c.snap }, line)
   | _ => none
